@@ -94,6 +94,15 @@ pub fn marker(val: u64, pos: &str) -> String {
     m
 }
 
+/// Register secret material that the harness did not generate itself.
+pub fn marker_custom(value: &str, pos: &str) {
+    if let Ok(mut g) = MARKERS.lock() {
+        if !g.iter().any(|(m, _)| m == value) {
+            g.push((value.to_string(), pos.to_string()));
+        }
+    }
+}
+
 pub const KINDS: [&str; 15] = [
     "note", "account", "list", "page", "card", "bank", "link", "password",
     "identity", "file", "pem", "totp", "contact", "age", "signer",
